@@ -269,11 +269,11 @@ fn part_parse_short(rep: &mut Report, thorough: bool) {
     {
         let zoo = load_zoo();
         let seeds = parse_seeds(&zoo, true);
-        let sec = Section::new("parse/unmutated-seeds", &format!("all {} parse seeds unmutated (every fixture key in every form, certificates, requests, public keys) through every DER entry point, every claimed PrivateKeyDer variant, and PEM-wrapped under 8 labels through every PEM entry point", seeds.len()));
+        let sec = Section::new("parse/unmutated-seeds", &format!("all {} parse seeds unmutated (every fixture key in every form, certificates, requests, public keys) through every DER entry point, every claimed PrivateKeyDer variant, and PEM-wrapped under 21 labels (registered, unregistered, empty, white space only, padded, lower case, non-ASCII) through every PEM entry point", seeds.len()));
         run::sweep_cases(&sec, &seeds, &|s| s.0.clone(), &|s| {
             let mut out = Outcome::default();
             out.transitions = feed_der(&s.1, &mut out.findings, &w);
-            for label in ["PRIVATE KEY", "EC PRIVATE KEY", "RSA PRIVATE KEY", "CERTIFICATE", "CERTIFICATE REQUEST", "PUBLIC KEY", "X509 CRL", "ENCRYPTED PRIVATE KEY"] {
+            for label in ["PRIVATE KEY", "EC PRIVATE KEY", "RSA PRIVATE KEY", "CERTIFICATE", "CERTIFICATE REQUEST", "PUBLIC KEY", "X509 CRL", "ENCRYPTED PRIVATE KEY", "", " ", "  ", "\t", "X ", " X", "A  B", "CERTIFICATE ", " CERTIFICATE", "NEW CERTIFICATE REQUEST", "TRUSTED CERTIFICATE", "certificate", "\u{e9}"] {
                 out.transitions += feed_text(&refmodel::pem::encode(label, &s.1), &mut out.findings, &w);
             }
             out.findings.dedup_by(|a, b| a.sig() == b.sig());
@@ -437,6 +437,13 @@ pub fn hostile_oids() -> Vec<(String, Vec<u64>)> {
         ("[0,39]".into(), vec![0, 39]),
         ("[2,999,3]".into(), vec![2, 999, 3]),
         ("[2,u64::MAX]".into(), vec![2, u64::MAX]),
+        ("[2,u64::MAX-79]".into(), vec![2, u64::MAX - 79]),
+        ("[2,u64::MAX-80]".into(), vec![2, u64::MAX - 80]),
+        ("[2,u64::MAX-81]".into(), vec![2, u64::MAX - 81]),
+        ("[2,47]".into(), vec![2, 47]),
+        ("[2,48,1]".into(), vec![2, 48, 1]),
+        ("[1,39]".into(), vec![1, 39]),
+        ("[2,39,u64::MAX]".into(), vec![2, 39, u64::MAX]),
         ("[1,2,u64::MAX]".into(), vec![1, 2, u64::MAX]),
         ("64 arcs".into(), (0..64).map(|i| if i == 0 { 1 } else { i as u64 }).collect()),
     ]
@@ -576,6 +583,29 @@ pub fn hostile_space() -> Space<GenCase> {
         });
         d = d.v(format!("revocation {}", l), move |c: &mut GenCase| {
             c.crl.revoked = vec![RevokedSpec { serial: vec![1], time: t, reason: None, invalidity: Some(t) }];
+            c.hostile.push(tag);
+        });
+        // the hostile time anywhere in a longer list: after entries with and without an invalidity date, as
+        // revocation time only, as invalidity date only, in the middle
+        let good = TimeSpec::ymd(2023, 1, 1);
+        d = d.v(format!("revocation (third entry, earlier ones plain) {}", l), move |c: &mut GenCase| {
+            c.crl.revoked = vec![
+                RevokedSpec { serial: vec![1], time: good, reason: None, invalidity: None },
+                RevokedSpec { serial: vec![2], time: good, reason: Some(1), invalidity: Some(good) },
+                RevokedSpec { serial: vec![3], time: t, reason: None, invalidity: None },
+            ];
+            c.hostile.push(tag);
+        });
+        d = d.v(format!("invalidity date (second of three entries) {}", l), move |c: &mut GenCase| {
+            c.crl.revoked = vec![
+                RevokedSpec { serial: vec![1], time: good, reason: None, invalidity: None },
+                RevokedSpec { serial: vec![2], time: good, reason: None, invalidity: Some(t) },
+                RevokedSpec { serial: vec![3], time: good, reason: None, invalidity: None },
+            ];
+            c.hostile.push(tag);
+        });
+        d = d.v(format!("next_update only {}", l), move |c: &mut GenCase| {
+            c.crl.next_update = t;
             c.hostile.push(tag);
         });
     }
